@@ -597,7 +597,9 @@ impl<W: Write> TableWriter<W> {
 		let mut buf = vec![0u8; TABLE_FULL_FOOTER_LENGTH];
 		footer.encode(&mut buf);
 
-		self.offset += self.writer.write(&buf[..])?;
+		// write_all: a short write is legal and must not leave a cut footer behind
+		self.writer.write_all(&buf[..])?;
+		self.offset += buf.len();
 		self.writer.flush()?;
 		Ok(self.offset)
 	}
